@@ -160,7 +160,7 @@ impl FileManager {
                     .read(true)
                     .write(true)
                     .create(true)
-                    .truncate(true)
+                    .truncate(false)
                     .open(file_name)?;
                 self.handle_map
                     .insert(handle, FileInfo::new_random(file, rec_len));
